@@ -49,7 +49,11 @@ def one_run(args):
     x, n, T, L, u, v, tau = make_system(info, rng, stratum)
     names = [f"X{i}" for i in range(n)]
     arg = x.copy()
-    if isinstance(stratum, tuple) and stratum[0] == "structure" and stratum[3] != "ndarray":
+    if info == "poisson" and seed % 2:
+        arg = x.astype(np.int64)          # counts as the integers they are (what a Poisson sampler returns)
+    if isinstance(stratum, tuple) and stratum[0] == "structure" and stratum[3] == "ndarray-int64":
+        arg = np.round(x * 100).astype(np.int64)        # the same system recorded in integer units (hundredths)
+    elif isinstance(stratum, tuple) and stratum[0] == "structure" and stratum[3] != "ndarray":
         import pandas as pd
         names = {"int": [7 * (n - i) for i in range(n)], "tuple": [("s", i % 2, i) for i in range(n)], "str": [f"v{chr(100 - i)}" for i in range(n)]}[stratum[3]]
         arg = pd.DataFrame(x.copy(), columns=pd.Index(names, tupleize_cols=False))
@@ -62,6 +66,7 @@ def one_run(args):
     largest = present and max(c for a, l, c in into_v) == next(c for a, l, c in into_v if a == names[u] and l == tau)
     # premises of planted_recovered, read off the instrumented run (oCSE methods only)
     premise = None
+    accept_mismatch = None
     if method in ("standard", "alternative"):
         want = x[L - tau: T - tau, u]
         tests_v = [t for t in o["tests"] if np.array_equal(t["Y"][:, 0], x[L:, v])]
@@ -77,8 +82,22 @@ def one_run(args):
                     acc = bool(fwd[0]["result"]["Pass"])
                     bwd_ok = bool(rest and rest[0]["result"]["Pass"])
                     premise = acc and bwd_ok
+                # the theorem's notion of "accepted in the forward phase" is "its forward test passed": the set handed to the backward
+                # phase (argument of the order draw) must be exactly the candidates whose forward test reported Pass
+                cols = {j * L + t_ - 1: x[L - t_: T - t_, j] for j in range(n) for t_ in range(1, L + 1)}
+                ident = lambda col: next((c for c, a in cols.items() if np.array_equal(a, col)), None)
+                fwd_all = [t for t in tests_v if t["draw_start"] < bdraw[0]]
+                passed = sorted(c for c in (ident(t["X"][:, 0]) for t in fwd_all if bool(t["result"]["Pass"])) if c is not None)
+                handed = sorted(int(c) for c in np.asarray(o["args"][bdraw[0]]).ravel())
+                if passed != handed:
+                    accept_mismatch = {"passed_forward_tests": passed, "handed_to_backward": handed}
+        # ... and "passed" must mean the documented test: significance only for an observed value strictly above the reported threshold
+        for t in o["tests"]:
+            r_ = t["result"]
+            if accept_mismatch is None and bool(r_["Pass"]) and not (float(r_["Value"]) > float(r_["Threshold"])):
+                accept_mismatch = {"test_reports_Pass_without_exceeding_its_threshold": {k_: float(r_[k_]) for k_ in ("Value", "Threshold", "P_value")}}
     return {"stratum": stratum, "nsh": nsh, "present": bool(present), "largest": bool(largest), "premise": premise, "n": n, "T": T, "L": L, "u": u, "v": v, "tau": tau, "seed": seed,
-            "edges_into_v": [(a, l) for a, l, c in into_v]}
+            "edges_into_v": [(a, l) for a, l, c in into_v], "accept_mismatch": accept_mismatch}
 
 
 def check(run, driver):
@@ -119,14 +138,18 @@ def check(run, driver):
     for method in ("standard", "alternative"):
         for _ in range(16 if thorough else 5):
             strata.append(("gaussian", method, int(rng.integers(0, 2**31)), int(rng.choice([10, 15])), "few-shuffles"))
+    # counts presented as the integers they are (odd seeds, see one_run), under both oCSE variants: information below 1 nat must not be lost
+    for method in ("standard", "alternative"):
+        for _ in range(12 if thorough else 8):
+            strata.append(("poisson", method, 2 * int(rng.integers(0, 2**30)) + 1, 20, "integer-counts-" + method))
     # structural sweep: every selection method x every relative position u - v x every lag (x ndarray / labelled frames):
     # a slip in the candidate bookkeeping loses ONE such cell completely while the pooled frequency stays high
-    LABS = ["ndarray", "int", "tuple", "str"]
+    LABS = ["ndarray", "int", "tuple", "str", "ndarray-int64"]
     per_cell = 16 if thorough else 10
     cells = [(method, diff, tau) for method in METHODS for diff in (-3, -2, -1, 1, 2, 3) for tau in (1, 2, 3)]
     for ci, (method, diff, tau) in enumerate(cells):
         for j in range(per_cell):
-            strata.append(("gaussian", method, int(rng.integers(0, 2**31)), 20, ("structure", diff, tau, LABS[(ci + j) % 4])))
+            strata.append(("gaussian", method, int(rng.integers(0, 2**31)), 20, ("structure", diff, tau, LABS[(ci + j) % 5])))
     tasks += strata
     with ProcessPoolExecutor(16) as ex:
         results = list(ex.map(one_run, tasks, chunksize=1))
@@ -148,6 +171,9 @@ def check(run, driver):
                 run.case(f"{info}-{method}", [info, method, r.get("seed")], True, sample={**case, "present": r.get("present"), "edges_into_v": r.get("edges_into_v")})
                 if "error" in r:
                     run.prop_fail("discover_network raises on a planted system", case, {"clause": "total", "estimator": info}, r["error"]); continue
+                if r.get("accept_mismatch"):
+                    run.corr_fail("forward-acceptance", case, "candidates handed to the backward phase = candidates whose forward test passed", r["accept_mismatch"],
+                                  "the forward phase accepts on something else than the reported verdict of its significance test (premise of planted_recovered)")
                 if r["premise"] is True:
                     run.traces += 1
                     if not r["present"]:
